@@ -197,6 +197,17 @@ impl Blob
         );
     }
 
+    /*  Forgets what is assumed about the file at the given index, so that the next look
+        at that file hashes its content instead of trusting the timestamp. */
+    pub fn forget_file_state
+    (
+        self : &mut Self,
+        index : usize
+    )
+    {
+        self.file_infos[index].file_state = FileState::empty();
+    }
+
     pub fn get_file_infos
     (
         self : &Self
